@@ -134,7 +134,15 @@ func (r *Report) writerHistory(g *gen.G, cf *CasesFile, dir string) {
 					specs = append(specs, optSpec{}, optSpec{})
 				}
 			}
+			var mySO *native.SerializeOptions
+			if g.Chance(0.3) {
+				mySO = &native.SerializeOptions{}
+				opts = append(opts, writer.WithSerializeOptions(mySO))
+			}
 			nw := writer.New(opts...)
+			if (mySO != nil && nw.Options.SerializeOptions != mySO) || nw.Options.SerializeOptions == nil || nw.Options.RenderOptions == nil || nw.Options.StoreOptions == nil {
+				r.Fail(Failure{What: "a writer's options after construction are not the given value (or a nil argument replaced a default)", Input: map[string]any{"history": desc, "with": specs}})
+			}
 			nw.Storage = wrec
 			insts = append(insts, nw)
 			hist = append(hist, "(HNew "+coqfmt.List(specs, coqOpt)+")")
@@ -255,6 +263,10 @@ func (r *Report) writerHistory(g *gen.G, cf *CasesFile, dir string) {
 			r.Fail(Failure{What: "a writer constructed without options does not have the documented defaults (the library defaults were changed by the history so far)", Detail: strings.Join(fresh, "|"), Input: map[string]any{"history": desc}})
 		}
 	}
+	if driverGotNilOptions > 0 {
+		r.Fail(Failure{What: "a serializer was handed nil serialize or render options (neither the call's, nor the writer's, nor the library defaults)", Detail: fmt.Sprint(driverGotNilOptions, " calls"), Input: map[string]any{"history": desc}})
+		driverGotNilOptions = 0
+	}
 	// direct oracle: every instance's configuration equals defaults + its own options; a fresh writer has the defaults
 	r.OracleEvals++
 	fresh := wObserve(writer.New())
@@ -287,6 +299,8 @@ func wOptSnapshot(o *writer.Options) string {
 }
 
 // effective values observed for a write: which registered fake got the call, with what arguments
+var driverGotNilOptions int
+
 func wEffective(fa, fb *nativefakes.FakeSerializer, nA, nB int, err error) []string {
 	var f *nativefakes.FakeSerializer
 	format := ""
@@ -299,11 +313,15 @@ func wEffective(fa, fb *nativefakes.FakeSerializer, nA, nB int, err error) []str
 	if f == nil {
 		return []string{"", "", "", "", "", ""}
 	}
-	_, _, fo := f.SerializeArgsForCall(f.SerializeCallCount() - 1)
+	_, so, fo := f.SerializeArgsForCall(f.SerializeCallCount() - 1)
 	_, _, ro, _ := f.RenderArgsForCall(f.RenderCallCount() - 1)
 	ind := ""
 	if ro != nil {
 		ind = fmt.Sprint(ro.Indent)
+	}
+	if so == nil || ro == nil {
+		// a driver is always handed option values: the call's, the writer's or the library defaults
+		driverGotNilOptions++
 	}
 	// noclobber / store-backend / fo:other do not take part in a write: reported as the model's
 	// "nothing" so that only the three effective settings are compared
